@@ -54,6 +54,9 @@ var c01Check = register("C01", "c01.encode", func(c *encCase) error {
 		other[i] ^= 0x5a
 	}
 	implEncode(other, implLang[l])
+	if len(c.Entropy) > 1 && c.Entropy[len(c.Entropy)-1] == 0x5a && c.Entropy[0]%4 == 0 {
+		runtime.GC() // now and then: a collection while the caller still holds the sentence
+	}
 	if got != want {
 		return failf(sig+" retained", "the sentence returned by NewMnemonicByEntropy(%x, %s) changed after a later call: it now reads %q", []byte(c.Entropy), l, got)
 	}
